@@ -520,9 +520,9 @@ type BadCase struct {
 
 var ledgerMuts = []string{"none", "one-participant", "three-participants", "duration-zero", "ragged", "negative", "empty-balances", "no-assets", "pre-locked",
 	"peer0-not-sender", "peer1-not-receiver", "three-peers", "one-peer", "columns-vs-peers", "nil-app"}
-var subMuts = []string{"none", "unknown-parent", "other-asset", "other-backend", "more-funds", "more-funds-other-party", "pre-locked", "duration-zero", "three-columns",
+var subMuts = []string{"none", "funds-gone-in-flight", "unknown-parent", "other-asset", "other-backend", "more-funds", "more-funds-other-party", "pre-locked", "duration-zero", "three-columns",
 	"stranger-sender", "extra-asset", "negative", "ragged"}
-var virtualMuts = []string{"none", "unequal-funding", "parents-0", "parents-1", "parents-3", "indexmaps-1", "indexmaps-3", "indexmap-out-of-range", "indexmap-empty",
+var virtualMuts = []string{"none", "funds-gone-in-flight", "unequal-funding", "parents-0", "parents-1", "parents-3", "indexmaps-1", "indexmaps-3", "indexmap-out-of-range", "indexmap-empty",
 	"more-funds", "unknown-parent", "other-asset", "duration-zero", "pre-locked", "peer0-not-sender", "peer1-not-receiver", "three-columns", "funding-dims"}
 
 func drawBadCase(t *rapid.T) BadCase {
@@ -538,6 +538,11 @@ func drawBadCase(t *rapid.T) BadCase {
 	}
 	c.Ser = rapid.SampledFrom([]string{"", "", "native", "protobuf"}).Draw(t, "ser")
 	c.Busy = c.Kind != "ledger" && rapid.IntRange(0, 3).Draw(t, "busy") == 0
+	if c.Mut == "funds-gone-in-flight" {
+		// a well-formed proposal that the parent covers before, but not after, the
+		// update that is in flight when it arrives
+		c.Busy = true
+	}
 	c.I = rapid.IntRange(0, 3).Draw(t, "i")
 	c.NAssets = []int{1, 1, 2, 3}[rapid.IntRange(0, 3).Draw(t, "nassets")]
 	return c
@@ -798,7 +803,12 @@ func runBadCase(c BadCase) *h.Outcome {
 		go func() {
 			ctx, cancel := context.WithTimeout(context.Background(), sim.HangLimit)
 			defer cancel()
-			upd <- parent.Update(ctx, func(s *channel.State) {})
+			upd <- parent.Update(ctx, func(s *channel.State) {
+				if c.Mut == "funds-gone-in-flight" {
+					// the receiver pays 36 of its 40 away: 4 are left, the proposal asks for 7
+					sim.Transfer(ai, sim.Idx(parent), bal(36), false)(s)
+				}
+			})
 		}()
 		select {
 		case <-hold.Caught():
